@@ -209,9 +209,13 @@ def presence_type(ct, expr):
         if len(g.ifs) == 1 and (norm(expr.args[0].elt) == var or (isinstance(expr.args[0].elt, ast.Constant) and bool(expr.args[0].elt.value))):
             return type_test(g.ifs[0], var)
         return None
-    if isinstance(expr, ast.Compare) and len(expr.ops) == 1 and isinstance(expr.ops[0], ast.In) and isinstance(expr.comparators[0], (ast.ListComp, ast.SetComp, ast.GeneratorExp)) \
-            and len(expr.comparators[0].generators) == 1:
+    if isinstance(expr, ast.Compare) and len(expr.ops) == 1 and isinstance(expr.ops[0], ast.In):
         comp = expr.comparators[0]
+        # set(..) / frozenset(..) / list(..) / tuple(..) around the comprehension do not change membership
+        while isinstance(comp, ast.Call) and norm(comp.func) in ("set", "frozenset", "list", "tuple") and len(comp.args) == 1 and not comp.keywords:
+            comp = comp.args[0]
+        if not (isinstance(comp, (ast.ListComp, ast.SetComp, ast.GeneratorExp)) and len(comp.generators) == 1):
+            return None
         g = comp.generators[0]
         if ct.is_entries(g.iter) and not g.ifs and isinstance(comp.elt, ast.Attribute) and comp.elt.attr == "type" and norm(comp.elt.value) == norm(g.target):
             return block_type_of(ct, expr.left, ct.mod)
@@ -305,6 +309,12 @@ def count_definition(ct, rep, rule="count-definition"):
             var = norm(gens[0].generators[0].target)
             if isinstance(c, ast.Compare) and isinstance(c.ops[0], ast.NotEq) and {norm(c.left), norm(c.comparators[0])} == {f"{var}.type", "BlockType.unusedSlot"} \
                     and ((norm(v.func) == "sum" and norm(gens[0].elt) == "1") or norm(v.func) == "len"):
+                okk = True
+        # sum(entry.type != unusedSlot for entry in entries): a sum of booleans counts the true ones
+        if gens and ct.is_entries(gens[0].generators[0].iter) and not gens[0].generators[0].ifs and isinstance(v, ast.Call) and norm(v.func) == "sum" and v.args and v.args[0] is gens[0]:
+            c = gens[0].elt
+            var = norm(gens[0].generators[0].target)
+            if isinstance(c, ast.Compare) and len(c.ops) == 1 and isinstance(c.ops[0], ast.NotEq) and {norm(c.left), norm(c.comparators[0])} == {f"{var}.type", "BlockType.unusedSlot"}:
                 okk = True
     if okk:
         rep.ok(rule, "Tdf.__len__ counts the entries whose type is not unusedSlot", nontrivial=True)
